@@ -342,6 +342,8 @@ def gen_engine_case(rng, kind):
         streams = [[s[0] + j for j in range(len(s))] for s in streams]
         return {"kind": kind, "d": 1, "streams": streams, "eng": [list(range(n))],
                 "sched": gen_sched(rng, streams, long_mode=True), "orders": None}
+    if kind == "startup_gap":
+        return gen_startup_gap_case(rng)
     streams = gen_grid_streams(rng, n, d, 40 if rng.random() < 0.15 else 14)
     case = {"kind": kind, "d": d, "streams": streams, "eng": [list(range(n))]}
     if kind == "offgrid":
@@ -357,6 +359,49 @@ def gen_engine_case(rng, kind):
             perms.append(p)
         case["orders"] = {"0": perms}
     case["sched"] = gen_sched(rng, case["streams"])
+    return case
+
+
+def gen_startup_gap_case(rng):
+    """Grid inputs, except that ONE lagging input (its first timestamp is below the latest first
+    timestamp T0 and shared with no other input) misses a run of samples around T0: catching up
+    overshoots, the first synchronisation fails ("Unable to synchronize ..."), and the evaluator has
+    to synchronise again in the next round.  From then on every input is on the grid again."""
+    n = rng.choice([2, 2, 3, 3, 4, 5])
+    d = rng.choice([1, 2, 4])
+    base = rng.randrange(-40, 40)
+    offs = list(range(-3, 4))
+    rng.shuffle(offs)
+    lag_off = offs[0]
+    others = [rng.choice([o for o in range(-3, 4) if o != lag_off]) for _ in range(n - 1)]
+    if max(others) <= lag_off:                       # make the chosen input a real laggard
+        others[rng.randrange(n - 1)] = rng.randint(lag_off + 1, 4)
+    t0 = max(others)
+    streams = []
+    for o in others:
+        streams.append([base + d * (o + j) for j in range(rng.randint(6, 16))])
+    lag = [base + d * (lag_off + j) for j in range(rng.randint(8, 18))]
+    # remove a run of samples g1..g2 (in steps) with lag_off < g1 <= g2; mostly covering T0 (overshoot)
+    if rng.random() < 0.8:
+        g1 = rng.randint(lag_off + 1, t0)
+        g2 = rng.randint(t0, t0 + 2)
+    else:
+        g1 = rng.randint(lag_off + 1, t0)
+        g2 = rng.randint(g1, t0) - 1 if g1 < t0 else g1 - 1      # a gap strictly before T0 (or none)
+    lag = [t for t in lag if not (base + d * g1 <= t <= base + d * g2)]
+    pos = rng.randrange(n)
+    streams.insert(pos, lag)
+    perms = []
+    for _ in range(rng.randint(1, 4)):
+        q = list(range(n))
+        rng.shuffle(q)
+        perms.append(q)
+    case = {"kind": "startup_gap", "d": d, "streams": streams, "eng": [list(range(n))],
+            "orders": {"0": perms} if rng.random() < 0.7 else None, "gap_stream": pos}
+    if case["orders"] is None and n > 2:
+        # with the real (arbitrary) set order the result may depend on which group is drained first
+        case["orders"] = {"0": perms}
+    case["sched"] = gen_sched(rng, streams)
     return case
 
 
@@ -463,4 +508,211 @@ def judge_engine_outputs(case, ids, outs):
             probs.append(f"timeline: emitted ticks {ticks[:8]}... differ from the available common ticks {pref[:8]}... from the latest first timestamp {t0}")
     elif ticks:
         probs.append("output although an input never delivered")
+    return probs
+
+
+# ----------------------------------------------------------------------------- composed engines
+# A composed case: leaf inputs wrapped by FormulaEngine.from_receiver, formulas built from them (and
+# from other composed engines, two levels) with the operator API, several simultaneous consumers.
+#   tree := g (leaf id) | ["+", tree, tree, ...]
+#   case: {"streams": [[tick..]..], "forms": [tree..] (each read by a consumer), "direct": [g..]
+#          (leaf engines read directly), "sched": [...]}
+# Equal sub-trees are ONE engine object (shared by its users), as in application code.
+def tree_leaves(t):
+    return [t] if isinstance(t, int) else [g for c in t[1:] for g in tree_leaves(c)]
+
+
+def run_composed(case):
+    async_solipsism, Broadcast, Quantity, Sample, FormulaBuilder, FormulaEngine, _ = _imports()
+    res = {}
+
+    async def main():
+        n = len(case["streams"])
+        chans = [Broadcast[Sample[Quantity]](name=f"g{g}") for g in range(n)]
+        rxs = [c.new_receiver(limit=50) for c in chans]
+        snd = [c.new_sender() for c in chans]
+        leaf = [FormulaEngine.from_receiver(f"x{g}", rxs[g], Quantity) for g in range(n)]
+        memo = {}
+
+        def build(t):
+            if isinstance(t, int):
+                return leaf[t]
+            key = json.dumps(t)
+            if key not in memo:
+                subs = [build(c) for c in t[1:]]
+                b = subs[0] + subs[1]
+                for e in subs[2:]:
+                    b = b + e
+                memo[key] = b.build("f" + str(len(memo)))
+            return memo[key]
+
+        consumers = None
+        sent = [0] * n
+        max_backlog = 0
+        for act in case["sched"] + [["c"], ["p"]]:
+            if act[0] == "s":
+                g = act[1]
+                k = sent[g]
+                if k < len(case["streams"][g]):
+                    t = E + timedelta(microseconds=TICK_US * case["streams"][g][k])
+                    await snd[g].send(Sample(t, Quantity(float(value_of(g, k)))))
+                    sent[g] += 1
+                    max_backlog = max(max_backlog, len(rxs[g]._q))  # pylint: disable=protected-access
+            elif act[0] == "y":
+                for _ in range(act[1]):
+                    await asyncio.sleep(0)
+            elif act[0] == "p":
+                await asyncio.sleep(1.0)
+            elif act[0] == "c" and consumers is None:
+                # everything is built and subscribed in one go (no await in between): a consumer that
+                # subscribes after an engine started emitting legitimately misses the earlier samples
+                tops = [build(t) for t in case["forms"]] + [leaf[g] for g in case["direct"]]
+                consumers = [e.new_receiver(max_size=100000) for e in tops]
+        outs = []
+        for rx in consumers:
+            out = []
+            while len(rx._q):  # pylint: disable=protected-access
+                m = rx.consume() if await rx.ready() else None
+                us = (m.timestamp - E) // timedelta(microseconds=1)
+                tick = us // TICK_US if us % TICK_US == 0 else us / TICK_US
+                out.append([tick, None if m.value is None else int(m.value.base_value)])
+            outs.append(out)
+        res["outs"] = outs
+        res["max_backlog"] = max_backlog
+        for t in asyncio.all_tasks():
+            if t is not asyncio.current_task():
+                t.cancel()
+        await asyncio.sleep(0)
+
+    loop = async_solipsism.EventLoop()
+    try:
+        loop.run_until_complete(main())
+    finally:
+        loop.close()
+    return res
+
+
+HEADER_COMPOSED = """From Verif Require Import model.EvalSync.
+(* case: per consumer (model output of its engine expression, expected output) *)
+Definition check (c : list (list sample * list (Z * Z))) : bool :=
+  forallb (fun p => list_eqb sample_eqb (fst p) (snd p)) c.
+"""
+
+
+def c_tree(case, t):
+    if isinstance(t, int):
+        return f"(engine_of [{c_stream(case, t, t)}] (@nil (list nat)))"
+    return "(engine_of [" + "; ".join(c_tree(case, c) for c in t[1:]) + "] (@nil (list nat)))"
+
+
+def composed_term(case, obs):
+    tops = list(case["forms"]) + list(case["direct"])
+    parts = []
+    for t, out in zip(tops, obs["outs"]):
+        exp = "[" + "; ".join(f"({cZ(int(o[0] * TICK_US))}, {cZ(-1 if o[1] is None else o[1])})" for o in out) + "]" if out else "(@nil (Z * Z))"
+        parts.append(f"({c_tree(case, t)}, {exp})")
+    return "[" + "; ".join(parts) + "]"
+
+
+def gen_tree_over(rng, leaves, depth):
+    """a sum over all of [leaves] (distinct), nested up to [depth] levels"""
+    leaves = list(leaves)
+    rng.shuffle(leaves)
+    if len(leaves) == 1:
+        return leaves[0]
+    if depth <= 1 or len(leaves) == 2 or rng.random() < 0.4:
+        return ["+"] + leaves
+    k = rng.randint(2, len(leaves) - 1) if len(leaves) > 2 else 2
+    inner = gen_tree_over(rng, leaves[:k], depth - 1)
+    rest = leaves[k:]
+    return ["+", inner] + rest if rng.random() < 0.5 else ["+"] + rest + [inner]
+
+
+def gen_composed_case(rng):
+    n = rng.choice([2, 3, 3, 4, 5])
+    d = rng.choice([1, 2])
+    streams = gen_grid_streams(rng, n, d, 40 if rng.random() < 0.2 else 16)
+    nforms = rng.choice([1, 2, 2, 3])
+    forms = []
+    shared = rng.randrange(n)                      # an input used by every formula
+    for _ in range(nforms):
+        k = rng.randint(2, min(n, 4))
+        others = [g for g in range(n) if g != shared]
+        rng.shuffle(others)
+        forms.append(gen_tree_over(rng, [shared] + others[: k - 1], 2))
+    if nforms >= 2 and rng.random() < 0.4:          # a composed engine reused inside another formula
+        inner = forms[0]
+        free = [g for g in range(n) if g not in tree_leaves(inner)]
+        if free:
+            forms[1] = ["+", inner, rng.choice(free)]
+    direct = [shared] if rng.random() < 0.5 else []
+    if rng.random() < 0.2:
+        direct.append(rng.randrange(n))
+    case = {"kind": "composed", "d": d, "streams": streams, "forms": forms, "direct": sorted(set(direct)),
+            "eng": [list(range(n))]}
+    case["sched"] = gen_sched(rng, streams)
+    return case
+
+
+def shrink_composed(case):
+    n = len(case["streams"])
+    simple = [["c"]] + [["s", g] for k in range(max((len(s) for s in case["streams"]), default=0)) for g in range(n)] + [["p"]]
+    if case["sched"] != simple:
+        yield {**case, "sched": simple}
+    nosubscribe_late = [a for a in case["sched"] if a[0] != "y"]
+    if nosubscribe_late != case["sched"]:
+        yield {**case, "sched": nosubscribe_late}
+    if len(case["forms"]) + len(case["direct"]) > 1:
+        for i in range(len(case["forms"])):
+            yield {**case, "forms": case["forms"][:i] + case["forms"][i + 1:]}
+        for i in range(len(case["direct"])):
+            yield {**case, "direct": case["direct"][:i] + case["direct"][i + 1:]}
+    for g in range(n):
+        sg = case["streams"][g]
+        if len(sg) > 1:
+            yield {**case, "streams": case["streams"][:g] + [sg[: len(sg) // 2]] + case["streams"][g + 1:]}
+            yield {**case, "streams": case["streams"][:g] + [sg[:-1]] + case["streams"][g + 1:]}
+
+
+def judge_sum_outputs(case, ids, outs, exact_timeline=True):
+    """outs: [(tick, value)] of a consumer whose value is the sum over the global inputs [ids]
+    (value of sample k of input g = (k+1)*BASE**g)."""
+    probs = []
+    d = case["d"]
+    for tick, v in outs:
+        if v is None or v < 0:
+            probs.append(f"sample at tick {tick} has no value")
+            break
+        digits = decode(v, len(case["streams"]))
+        if digits is None:
+            probs.append(f"sample at tick {tick}: value {v} is not a sum of input samples")
+            break
+        bad = None
+        for g in range(len(case["streams"])):
+            k = digits[g]
+            if g not in ids:
+                if k != -1:
+                    bad = f"sample at tick {tick} contains input {g} which is not part of the formula"
+                continue
+            if not (0 <= k < len(case["streams"][g])) or case["streams"][g][k] != tick:
+                ts = case["streams"][g][k] if 0 <= k < len(case["streams"][g]) else None
+                bad = f"single-timestamp: sample stamped tick {tick} used sample #{k} of input {g} stamped {ts}"
+                break
+        if bad:
+            probs.append(bad)
+            break
+    ticks = [t for t, _ in outs]
+    for a, b in zip(ticks, ticks[1:]):
+        if b - a != d:
+            probs.append(f"step: emitted timestamps {a} -> {b} do not advance by one input step {d}")
+            break
+    if exact_timeline:
+        if all(case["streams"][g] for g in ids):
+            t0 = max(case["streams"][g][0] for g in ids)
+            end = min(case["streams"][g][-1] for g in ids)
+            want = list(range(t0, end + 1, d))
+            if ticks != want and not probs:
+                probs.append(f"timeline: consumer saw ticks {ticks[:8]}... instead of every common tick {want[:8]}... once")
+        elif ticks:
+            probs.append("output although an input never delivered")
     return probs
